@@ -71,7 +71,7 @@ PROPS_HEADER = {
     # add also=['C16strict'] to make the literal reading of "whatever the file contained before" binding
     lean_modules=['ClockBound.Properties.C16'],
     technique='Lean 4 proof over a byte-level model of ShmHeader::read / ShmReader::new / ShmWriter::new / write (all byte lists, all three kinds of path) + differential correspondence on real files: real ShmReader::new, ClockBoundClient::new_with_path and C clockbound_open on every generated file; real ShmWriter::new + write + fresh ShmReader::new + snapshot for the repair clause',
-    level_text='Theorems C16.open_ok_iff / open_error_kind / open_missing / open_directory / open_total characterise the outcome of opening for every list of bytes of every length and the three kinds of path (check order magic -> version -> generation -> declared size; the file\'s real length beyond 16 bytes is irrelevant). C16.repair_roundtrip proves for every prior state but a directory, every in-range record and every padding content that start-up + first publication leaves a file that opens, is re-created exactly when the prior state did not open and is then byte for byte the documented 72-byte image, is otherwise taken over in place (length, magic, declared size unchanged), and from which a fresh reader reads back exactly the record. start_directory and truncated_not_repaired state the two exceptions (EISDIR at start-up; a usable header on a file shorter than 72 bytes is never extended). open_spec / model_holds_open / model_holds_seg tie the decidable oracles to the model.',
+    level_text='Theorems C16.open_ok_iff / open_error_kind / open_missing / open_directory / open_total characterise the outcome of opening for every list of bytes of every length and the three kinds of path (check order magic -> version -> generation -> declared size; the file\'s real length beyond 16 bytes is irrelevant). C16.repair_roundtrip proves for every prior state but a directory, every in-range record and every padding content that start-up + first publication leaves a file that opens, is re-created exactly when the prior state did not open and is then byte for byte the documented 72-byte image, is otherwise taken over in place (length, magic, declared size unchanged), and from which a fresh reader reads back exactly the record. start_directory states the one exception (EISDIR at start-up); truncated_extended covers a usable header on a file shorter than 72 bytes (grown in place to 72 bytes; repaired defect D6). open_spec / model_holds_open / model_holds_seg tie the decidable oracles to the model.',
     level_note='Trusted: Lean kernel + standard axioms; POSIX file/mmap behaviour is modelled as observed, correspondence is differential testing on real files; an address-space limit (ulimit -v) adds the outcome ENOMEM from mmap (theorems open_ok_iff_lim / open_mmap_refused), which the runs do not exercise.',
     pre='c17',
     gens=lambda seed, th: [['hdr-open', seed, 60000 if th else 4000], ['hdr-seg', seed, 60000 if th else 4000], ['hdr-snap', seed, 40000 if th else 3000]],
@@ -82,7 +82,7 @@ PROPS_HEADER = {
     rule="grid: every truncation length 0..72 of a valid segment; 70 magic mutations (every single bit of both words, swapped words, byte-swapped words, the byte string printed in docs/PROTOCOL.md); the cross product size in {0,15,16,71,72,73,400,2^32-1} x version in {0,1,3,65535} x generation in {0,1,2,65535} x magic ok/bad on 72-byte and 16-byte files (check order observable when two checks fail); live segments longer than 72 bytes with odd / wrapping generations; directory; missing path; then seeded random files (random bytes of length 0..200, valid magic + random rest, boundary headers with random tails, valid live segments with random records); `seg` pairs every prior with a random record incl. negative and extreme fields and all three statuses; `snap` (model correspondence only, C16:na) lets a fresh reader read every such file as a static image (odd generation => the all-zero initial snapshot). distinct = sha1 of request; non-trivial = open: a failing check, special path or maximal declared size; seg: an existing prior file that was re-created or taken over",
     trusted_base=HEADER_TB,
     assumptions=["a directory at the segment path makes daemon start-up fail with EISDIR (C16:na on those lines)",
-                 "a prior file with a usable header but fewer than 72 bytes is taken over and never extended: the record is not in the file, only in the page cache beyond EOF (observed: another process reads it back until the page is evicted, then reads zeros). These cases are tagged truncatedValid, C16:na / C16strict:FAILS"],
+                 "a prior file with a usable header but fewer than 72 bytes is grown in place to 72 bytes (repair D6); tag truncatedValid"],
  ),
  'C17': dict(
     oracle='C17', also=['C17magic'],
